@@ -25,8 +25,9 @@ def gtype_to_python(text):
     names = {}
 
     def named(n):
+        from vf.pyvc.values import name_of_code
         if n not in names:
-            names[n] = ScalarType("T%d" % n, serialize=str, parse=str)
+            names[n] = ScalarType(name_of_code(n) or "T%d" % n, serialize=str, parse=str)
         return names[n]
     env = {"Named": named, "List": ListType, "NonNull": NonNullType}
     return eval(text, {"__builtins__": {}}, env)
